@@ -154,6 +154,44 @@ def _build_bare():
         def input_data_type(cls):
             return TData
 
+    from semantiva.data_types import NoDataType
+
+    class Terminal_Sink(DataSink):
+        """A sink that declares it emits nothing (a warning-level contract note, not an error)."""
+
+        @classmethod
+        def _send_data(cls, data, path="/dev/null"):
+            return None
+
+        @classmethod
+        def input_data_type(cls):
+            return TData
+
+        @classmethod
+        def output_data_type(cls):
+            return NoDataType
+
+    class Terminal_PSink(PayloadSink):
+        """A payload sink that declares it emits nothing."""
+
+        @classmethod
+        def _send_payload(cls, payload, path="/dev/null"):
+            return None
+
+        @classmethod
+        def input_data_type(cls):
+            return TColl
+
+        @classmethod
+        def output_data_type(cls):
+            return NoDataType
+
+    for cls, desc in ((Terminal_Sink, dict(kind="dataSink", inT="TData", outT="TData", created=[], params=["path"])),
+                      (Terminal_PSink, dict(kind="payloadSink", inT="TColl", outT="TColl", created=[], params=["path"]))):
+        cls.__module__ = __name__
+        cls.__qualname__ = cls.__name__
+        g[cls.__name__] = cls
+        FAMILY[cls.__name__] = desc
     for cls, desc in ((Bare_Op, dict(kind="operation", inT="TData", outT="TData", created=[], params=["a"])),
                       (Bare_Probe, dict(kind="probe", inT="TData", outT=None, created=[], params=[])),
                       (Bare_Source, dict(kind="dataSource", inT="NoDataType", outT="TData", created=[], params=["v"])),
